@@ -22,7 +22,7 @@ from .. import gen as G
 
 PID = 'C05'
 RULE = ('cases = PRISM objects of rank 1-4 (domain length 32-256, random densities, diameters, kT, chain/cross omegas) whose totalCorr and directCorr '
-        'are hand-populated with random smooth symmetric functions, each independently left in real or Fourier space, plus converged solutions of '
+        'are hand-populated with random smooth symmetric functions, each (and omega) independently left in real or Fourier space, plus converged solutions of '
         'rank 2-3 systems; on each object all seven calculate functions are called with both values of every flag (11 calls) under the contracts, '
         'chi additionally with linear probes (a single non-zero pair function); non-trivial = object of rank >= 2 on which all 11 calls were '
         'compared, or rank 1 with the 5 applicable calls and the 3 refusals; distinct = distinct case digests')
@@ -297,7 +297,7 @@ def cases(ctx):
             yield {'kind': 'solved', 'rank': int(rng.choice([2, 2, 3])), 'seed': int(rng.integers(0, 2 ** 31))}
         else:
             yield {'kind': 'hand', 'rank': int(rng.choice([1, 2, 2, 3, 3, 4])), 'L': int(rng.choice([32, 48, 64, 100, 128, 256])), 'dr': float(rng.choice([0.1, 0.05, 0.2])),
-                   'spaceH': str(rng.choice(['Fourier', 'Real'])), 'spaceC': str(rng.choice(['Fourier', 'Fourier', 'Real'])), 'equal_d': bool(rng.random() < 0.5),
+                   'spaceH': str(rng.choice(['Fourier', 'Real'])), 'spaceC': str(rng.choice(['Fourier', 'Fourier', 'Real'])), 'spaceW': str(rng.choice(['Fourier', 'Fourier', 'Fourier', 'Real'])), 'equal_d': bool(rng.random() < 0.5),
                    'seed': int(rng.integers(0, 2 ** 31))}
 
 
@@ -404,6 +404,8 @@ def run_case(ctx, case):
     spC = Space.Fourier if case['spaceC'] == 'Fourier' else Space.Real
     p.totalCorr = randsym(rng, L, types, k if spH == Space.Fourier else rk, spH, 0.5)
     p.directCorr = randsym(rng, L, types, k if spC == Space.Fourier else rk, spC, 0.3)
+    if case.get('spaceW') == 'Real':
+        p.sys.domain.MatrixArray_to_real(p.omega)           # the user looked at omega(r)
     _S['spec'] = sp
     _S['pristine'] = capture(p)
     done = run_calls(ctx, p, sp, rng)
@@ -442,6 +444,6 @@ def run_case(ctx, case):
             ctx.violation('calc:chi-weight-ratio', 'chi weights of (C_aa, C_bb, C_ab) are in ratio %.6g : %.6g : %.6g, expected 1/R : R : -2 with R=%.6g' % (waa / waa, wbb / waa, wab / waa, Rv))
     if (n >= 2 and done == len(CALLS)) or (n == 1 and done == 6):
         ctx.nontrivial(case)
-    ctx.count('object', 'hand/rank%d/H=%s/C=%s' % (n, case['spaceH'], case['spaceC']))
+    ctx.count('object', 'hand/rank%d/H=%s/C=%s/W=%s' % (n, case['spaceH'], case['spaceC'], case.get('spaceW', 'Fourier')))
     ctx.sample({'rank': n, 'L': L, 'dr': sp['dr'], 'kT': sp['kT'], 'rho': sp['rho'], 'd': sp['d'], 'spaces': [case['spaceH'], case['spaceC']],
                 'omega': {kk: v['t'] for kk, v in sp['om'].items()}}, limit=4)
